@@ -40,11 +40,14 @@ SHARDS.update({
     "urwid/vterm.py:TermCanvas.insert_chars": (4, 4),
     "urwid/vterm.py:TermCanvas.remove_chars": (4, 4),
     "urwid/vterm.py:TermCanvas.erase": (6, 4),
+    "urwid/vterm.py:TermCanvas.parse_csi": (8, 2),
+    "urwid/vterm.py:TermCanvas.set_tabstop": (4, 4),
 })
 
 # Solver-strategy flags per contract file (no semantic content).
 MODULE_FLAGS = {
     "contracts.C15_vterm": {"qf_forall_only": True},
+    "contracts.C15_parser": {"qf_forall_only": True},
 }
 
 SHARDS.update({
@@ -87,6 +90,12 @@ ALSO_SERVES = {
     "C03": ["urwid/util.py:calc_trim_text", "urwid/str_util.py:calc_text_pos", "urwid/str_util.py:calc_width"],
     "C04": ["urwid/util.py:calc_trim_text"],
 }
+# draw_screen's skip-unchanged-rows test (`osb[y] == row`), its attribute-switch test (`last_attributes != a`) and the
+# `a in self._pal_escape` lookup are AttrSpec.__eq__ / __hash__ when AttrSpec objects are canvas attributes; AttrMap's
+# attribute dictionaries are keyed by them too: equal exactly when the packed words are equal, hash a function of the word.
+_ATTRSPEC_IDENTITY = ["urwid/display/common.py:AttrSpec.__eq__", "urwid/display/common.py:AttrSpec.__hash__", "lemma:equal-attrspecs-have-equal-hashes"]
+ALSO_SERVES["C04"] = ALSO_SERVES["C04"] + _ATTRSPEC_IDENTITY
+ALSO_SERVES["C17"] = ALSO_SERVES["C17"] + _ATTRSPEC_IDENTITY
 
 SHARDS.update({
     "urwid/widget/listbox.py:ListBox.calculate_visible": (16, 14),
